@@ -11,6 +11,7 @@ instance attribute of a setup / algorithm object is assigned a generator, lambda
 Not decided: equality of results across orders/repetitions as values; pickle equality.
 """
 import ast
+import re
 
 from .. import astq
 from ..program import rel, FuncInfo, ClassInfo, Ext, AnalysisError
@@ -762,11 +763,20 @@ def poser(prog, run):
         if yv is not None and checking and not any(isinstance(x, ast.Name) and x.id == yv for s_ in checking for x in ast.walk(s_)):
             oky = False
             why_dep = f"the check before `yield {yv}` never looks at `{yv}`"
-    run.ob("R-poser", g.qual, "each setup is yielded only after the run / modes-extracted check of THAT setup", oky, f"{len(yields)} yield(s)" + (f": {why_dep}" if not oky and why_dep else ""),
+    if not yields:
+        # not a generator: the validated setups are handed back in one piece.  Sound when the run / modes-extracted check (a raise whose test
+        # reads result / Fn) is reached on every path before the return; anything else is not read
+        rets_ = [n for n in ast.walk(g.node) if isinstance(n, ast.Return) and n.value is not None]
+        chks_ = [s_ for s_ in ast.walk(g.node) if isinstance(s_, (ast.If, ast.For)) and any(isinstance(x, ast.Raise) for x in ast.walk(s_)) and "result" in guard_text(s_) and "Fn" in guard_text(s_)]
+        top = [s_ for s_ in g.node.body if any(c_ is s_ or astq._contains(s_, c_) for c_ in chks_)]
+        oky = True if (rets_ and top and all(getattr(r_, "lineno", 0) > max(getattr(t_, "end_lineno", t_.lineno) for t_ in top) for r_ in rets_)) else None
+    run.ob("R-poser", g.qual, "each setup is yielded only after the run / modes-extracted check of THAT setup" if yields else "the setups are handed back only after the run / modes-extracted check of every one",
+           oky, f"{len(yields)} yield(s)" + (f": {why_dep}" if not oky and why_dep else "") + ("" if yields else " - the routine returns the list after its checks"),
            witness="unchecked yield", file=f, node=g.node)
     # names count check
     guards = [(s_, astq.src(astq.expr_at(g, s_, s_.test), 600)) for s_ in ast.walk(g.node) if isinstance(s_, ast.If) and any(isinstance(x, ast.Raise) for x in s_.body)]
-    names = any("self.names" in t and "len(" in t for s_, t in guards)
+    # (the names as the attribute or as a parameter handed in: any length test that involves an expression called `names`)
+    names = any(("self.names" in t or re.search(r"len\(\s*names\s*\)", t)) and "len(" in t for s_, t in guards)
     run.ob("R-poser", g.qual, "one name per algorithm is enforced", names, "len(self.names) compared with the number of algorithms" if names else "no check on the number of names", witness="no-names-check", file=f, node=g.node)
     types = any("type(" in t for s_, t in guards)
     # exact types: an isinstance() test also accepts subclasses (SSIcov for SSIdat, EFDD for FDD) whose results are not comparable
@@ -784,7 +794,12 @@ def poser(prog, run):
             for c in ast.walk(n):
                 if isinstance(c, ast.Call) and isinstance(c.func, ast.Attribute) and c.func.attr == "_init_setups":
                     exhausted = True
-    run.ob("R-poser", init.qual, "validation generator is exhausted inside __init__", exhausted, "list built from _init_setups(...)" if exhausted else "the generator object is stored: validation would run lazily (or never)", witness="lazy", file=rel(prog.mods[init.mod].path), node=init.node)
+    if not yields:
+        # not a generator: the checks run when the routine is called
+        raw_init = prog.raw.functions.get(init.qual)
+        exhausted = any(isinstance(c, ast.Call) and isinstance(c.func, ast.Attribute) and c.func.attr == "_init_setups"
+                        for c in ast.walk(raw_init.node if raw_init is not None else init.node)) or None
+    run.ob("R-poser", init.qual, "validation generator is exhausted inside __init__" if yields else "the validation routine is called inside __init__", exhausted, "list built from _init_setups(...)" if exhausted else "the generator object is stored: validation would run lazily (or never)", witness="lazy", file=rel(prog.mods[init.mod].path), node=init.node)
 
 
 def _type_guard_coverage(prog, g, guards):
@@ -886,8 +901,11 @@ def _type_guard_coverage(prog, g, guards):
                 t = astq.expr_at(g, s_, s_.test)
                 in_loop = astq.enclosing(astq.parent_map(g.node), s_, (ast.For,)) is not None
                 for c in ast.walk(t):
-                    if isinstance(c, ast.Call) and isinstance(c.func, ast.Name) and c.func.id == "len" and c.args and isinstance(c.args[0], ast.Attribute) and c.args[0].attr == "algorithms":
-                        base = c.args[0].value
+                    alg_attr = next((a_ for a_ in ast.walk(c.args[0]) if isinstance(a_, ast.Attribute) and a_.attr == "algorithms"), None) \
+                        if isinstance(c, ast.Call) and isinstance(c.func, ast.Name) and c.func.id == "len" and c.args else None
+                    # len(s.algorithms) / len(s.algorithms.values()) / len(list(s.algorithms.values()))
+                    if alg_attr is not None:
+                        base = alg_attr.value
                         per_setup = isinstance(base, ast.Name) and (in_loop or any(isinstance(n, ast.comprehension) and any(isinstance(x, ast.Name) and x.id == base.id for x in ast.walk(n.target)) for n in ast.walk(t)))
                         if per_setup:
                             return True, f"{cuts[0][1]}, but the number of algorithms of every setup is compared as well"
